@@ -1,7 +1,7 @@
 """C10 - customising one loader or dumper class never changes another (inductive ownership invariant)."""
 import sys
 
-from sa import report, rules_registry as RR
+from sa import report, effects as E, rules_registry as RR
 
 
 def run(ctx, repo):
@@ -19,6 +19,7 @@ def run(ctx, repo):
     RR.r_registry_decl(ctx, repo)
     RR.r_cow(ctx, repo)
     RR.r_sole_writer(ctx, repo)
+    E.r_global_readonly(ctx, repo)
     RR.r_fanout(ctx, repo)
     RR.r_dispatch_self(ctx, repo)
     rm = RR.model(repo)
